@@ -17,7 +17,7 @@ CHECKS = {
         "tests": [T("TestC07", 300, 2500)],
         "level": "exploration",
         "technique": "property-based testing (rapid): generated multi-writer Put/PutBatch/PutAll/Delete/sync histories vs. an LWW reference model, checked after every step",
-        "rule": "rapid draws 1-3 writer replicas of one docstore (replication off, merges by manual Sync so the harness knows who has seen what) and up to 14 (quick) / 24 (thorough) operations over a pool of 10 mixed-case keys, plus up to 5 Get/Query probes evaluated on every replica after every step; oracle = fold of the harness's own operations in (Lamport time, clock id) order, which must also equal Values(); non-trivial = some key received both a single Put/Delete and a PutAll membership; distinct = SHA-1 of the case JSON",
+        "rule": "rapid draws 1-3 writer replicas of one docstore (replication off, merges by manual Sync so the harness knows who has seen what) and up to 14 (quick) / 24 (thorough) operations (Put, PutBatch, PutAll, Delete, sync, restart of a replica with Load(-1)) over a pool of 10 mixed-case keys, plus up to 5 Get/Query probes evaluated on every replica after every step; oracle = fold of the harness's own operations in (Lamport time, clock id) order, which must also equal Values(); non-trivial = some key received both a single Put/Delete and a PutAll membership; distinct = SHA-1 of the case JSON",
         "level_text": "Generated histories against an explicit reference model; no exhaustiveness claimed.",
         "level_note": "Trusted: go-ipfs-log clocks/encoding, JSON marshalling of documents. Search keys with spaces and empty document keys are outside the stated domain and not generated.",
         "design_ref": "5/C07",
@@ -34,7 +34,7 @@ CHECKS["C06"] = {
     "tests": [T("TestC06", 300, 2500)],
     "level": "exploration",
     "technique": "property-based testing (rapid): generated multi-writer Put/Delete/sync histories vs. an LWW reference model and an independent (time,id) order, checked after every step on every replica",
-    "rule": "rapid draws 1-3 writer replicas of one keyvalue store (replication off; merges by manual Sync so the harness records each write's causal past) and up to 16 (quick) / 30 (thorough) operations - Put, Delete, sync, and Put/Delete with a merge of another replica's log completing inside the write call (the writer is parked at the hook between persisting its head and refreshing its view) - over 8 keys (ASCII, mixed case, empty, unicode, with space, long) and 6 value shapes (nil, empty, text, binary, JSON, 3 KB); after every step every replica is compared: Values() == entries sorted by (Lamport time, clock id) and extends the recorded happens-before, Get(k) for every pool key and All() == LWW fold of the harness's own operations in that order (nil and empty values identified); non-trivial = a key touched by >=2 writers with a delete among the operations; distinct = SHA-1 of the case JSON",
+    "rule": "rapid draws 1-3 writer replicas of one keyvalue store (replication off; merges by manual Sync so the harness records each write's causal past) and up to 16 (quick) / 30 (thorough) operations - Put, Delete, sync, restart of a replica (instance closed, a new one on the same disk, Load(-1): the view is rebuilt from storage), and Put/Delete with a merge of another replica's log completing inside the write call (the writer is parked at the hook between persisting its head and refreshing its view) - over 8 keys (ASCII, mixed case, empty, unicode, with space, long) and 6 value shapes (nil, empty, text, binary, JSON, 3 KB); after every step every replica is compared: Values() == entries sorted by (Lamport time, clock id) and extends the recorded happens-before, Get(k) for every pool key and All() == LWW fold of the harness's own operations in that order (nil and empty values identified); non-trivial = a key touched by >=2 writers with a delete among the operations; distinct = SHA-1 of the case JSON",
     "level_text": "Generated histories against an explicit reference model; no exhaustiveness claimed.",
     "level_note": "Trusted: go-ipfs-log clocks and encoding. 'At every moment' is read as 'at every rest point after each API step' (a reader cannot observe log and view atomically during a merge).",
     "design_ref": "5/C06",
@@ -45,7 +45,7 @@ CHECKS["C08"] = {
     "tests": [T("TestC08", 200, 2000)],
     "level": "exploration",
     "technique": "property-based testing (rapid): generated multi-writer event-log histories merged into an observer in increments; subsequence/order invariants over successive listings plus enumerated gt/gte/lt/lte x amount windows vs. a window model",
-    "rule": "rapid draws 2-3 writers and an observer (replication off, manual Sync), up to 18 (quick) / 36 (thorough) add/merge/observe steps; after every step on every replica List(-1) == Values() == entries sorted by (time,id) and extending the recorded happens-before, and the observer's previous listing must be a subsequence of the new one; on the final logs of the observer and of writer 0 every bound kind {none,gt,gte,lt,lte} x positions (all for n<=6, else first/last/3 drawn) x amounts {unset,0,1,2,n-1,n,n+3,-1,-7, 2 drawn} is compared with the window model, and Get(hash) for every entry; non-trivial = an increment placed an entry before an already listed one AND some window was cut by both bound and amount; distinct = SHA-1 of the case JSON",
+    "rule": "rapid draws 2-3 writers and an observer (replication off, manual Sync), up to 18 (quick) / 36 (thorough) add/merge/observe/reopen steps (reopen: a writer or the observer restarts and reloads from storage); after every step on every replica List(-1) == Values() == entries sorted by (time,id) and extending the recorded happens-before, and the observer's previous listing must be a subsequence of the new one; on the final logs of the observer and of writer 0 every bound kind {none,gt,gte,lt,lte} x positions (all for n<=6, else first/last/3 drawn) x amounts {unset,0,1,2,n-1,n,n+3,-1,-7, 2 drawn} is compared with the window model, and Get(hash) for every entry; non-trivial = an increment placed an entry before an already listed one AND some window was cut by both bound and amount; distinct = SHA-1 of the case JSON",
     "level_text": "Generated histories, enumerated window options per history; no exhaustiveness claimed over histories.",
     "level_note": "Bounds that are not entries of the log are excluded (undocumented quirk, per the property). Amount unset or 0 means 1 (pinned by the existing test suite).",
     "design_ref": "5/C08",
